@@ -1709,6 +1709,12 @@ class Authenticated(BaseClientHandler):
         #
         expunge_cmd = IMAPClientCommand("A001 EXPUNGE")
         expunge_cmd.command = IMAPCommand.EXPUNGE
+        # Anything that was queued for this client while the messages were
+        # copied (a FETCH for a message added to this same mailbox, say) has
+        # to go out before the EXPUNGEs below, which are sent immediately.
+        #
+        await self.send_pending_notifications()
+
         try:
             idling = self.idling
             self.idling = True
